@@ -744,8 +744,9 @@ func (in *Interp) convert(v Value, from, to types.Type) Value {
 	if _, ok := v.(Unknown); ok {
 		return v
 	}
-	if _, ok := v.(BoolF); ok {
-		return v // 0/1 in every integer type
+	switch v.(type) {
+	case BoolF, ByteV, Bit7:
+		return v // 0/1 resp. a byte in every integer type
 	}
 	fb, ok1 := from.Underlying().(*types.Basic)
 	tb, ok2 := to.Underlying().(*types.Basic)
@@ -1150,6 +1151,10 @@ func (in *Interp) call(fn *ssa.Function, args []Value, free []Value) Value {
 						f.locals[x] = SymV{in.em.emit(Op{kind: "subw", a: in.em.constant(mask(n)), b: s.id, k: n})}
 					}
 				case token.NOT:
+					if cf, isC := v.(CondF); isC {
+						f.locals[x] = CondF{cf.id, !cf.neg}
+						continue
+					}
 					c, ok := v.(Conc)
 					if !ok {
 						if _, u := v.(Unknown); u {
@@ -1276,6 +1281,22 @@ func (in *Interp) call(fn *ssa.Function, args []Value, free []Value) Value {
 					in.segEnds = append(in.segEnds, len(in.em.ops))
 					if len(in.decisions) > 4096 {
 						fail("decision tree deeper than 4096")
+					}
+					if d {
+						next = b.Succs[0]
+					} else {
+						next = b.Succs[1]
+					}
+					continue
+				}
+				if cf, isC := in.get(f, x.Cond).(CondF); isC && in.fl != nil {
+					d := true
+					if len(in.fl.decisions) < len(in.fl.script) {
+						d = in.fl.script[len(in.fl.decisions)]
+					}
+					in.fl.decisions = append(in.fl.decisions, fdec{id: cf.id, neg: cf.neg, d: d, segEnd: len(in.fl.ops)})
+					if len(in.fl.decisions) > 64 {
+						fail("field-level decision tree deeper than 64")
 					}
 					if d {
 						next = b.Succs[0]
